@@ -23,7 +23,7 @@ RULE = (
     "counted separately: from the partner component (axis-swapping link) and with a sign change"
 )
 SPACE = {
-    "quick": "domains 2x1,1x2,2x2,3x1 (N=2) and 2x1,1x2 (N=3) x 3 periodicities x all 4^K rotation assignments (all-links-non-reversed kept) x {diff,interp} x both components x 4 layouts; grids without face connections: 2 ops x 2 comps x 3 rules x 3 layouts",
+    "quick": "domains 2x1,1x2,2x2,3x1 (N=2) and 2x1,1x2 (N=3) x 3 periodicities x all 4^K rotation assignments (all-links-non-reversed kept) x {diff,interp} x both components x 6 layouts (the partner in a different dimension order than the component), each evaluated twice on the same Grid with the same array objects overwritten in place; grids without face connections: 2 ops x 2 comps x 3 rules x 3 layouts",
     "thorough": "+ 2x2,3x1,1x3 at N=3, 2x3 at N=2, all layouts for every case",
 }
 BOUNDS = {"quick": {"N": [2, 3]}, "thorough": {"N": [2, 3]}}
@@ -31,7 +31,9 @@ ASSUMPTIONS = [
     "U and V carry disjoint label ranges of opposite sign with non-linear (squared) integer values, so source component, source cell and sign are identified exactly",
     "left (low-edge) staggering of the components; unlinked (open) edges are compared under fill(0)",
 ]
-LAYOUTS = (("face", "Y", "X"), ("t", "face", "Y", "X"), ("face", "t", "Y", "X"), ("Y", "X", "face"))
+LAYOUTS = (("face", "Y", "X"), ("t", "face", "Y", "X"), ("face", "t", "Y", "X"), ("Y", "X", "face"), ("face", "X", "Y"), ("X", "face", "t", "Y"))
+# the partner component is stored in its own layout (the next one with the same extra dimensions)
+PARTNER_LAYOUT = {0: 4, 4: 0, 1: 5, 5: 1, 2: 1, 3: 0}
 PERIODICITIES = ((False, False), (True, True), (True, False))
 
 
@@ -65,11 +67,11 @@ def global_uv(D, seed):
 
 def layout_da(arr, comp, layout, second):
     dims = {"X": ["face", "y", "xl"], "Y": ["face", "yl", "x"]}[comp]
-    da = xr.DataArray(arr, dims=dims)
+    da = xr.DataArray(np.array(arr), dims=dims)  # a private copy: the check overwrites it in place later
     if "t" in layout:
         da = xr.concat([da, xr.DataArray(second, dims=dims)], dim="t")
     m = {"face": "face", "t": "t", "Y": dims[1], "X": dims[2]}
-    return da.transpose(*[m[d] for d in layout])
+    return da.transpose(*[m[d] for d in layout]).copy()
 
 
 def run_case(rec, Kx, Ky, N, per, orient, op, li, seed, pre=None):
@@ -104,11 +106,15 @@ def run_case(rec, Kx, Ky, N, per, orient, op, li, seed, pre=None):
     except Exception as e:
         rec.violation("constructor", "raise:" + exc_sig(e), case, "a Grid", f"{type(e).__name__}: {e}"[:200])
         return
+    playout = LAYOUTS[PARTNER_LAYOUT[li]]
     ua = layout_da(fields[0][2], "X", layout, fields[1][2])
     va = layout_da(fields[0][3], "Y", layout, fields[1][3])
+    # the partner handed over as other_component uses another dimension order than the component
+    ua_p = layout_da(fields[0][2], "X", playout, fields[1][2])
+    va_p = layout_da(fields[0][3], "Y", playout, fields[1][3])
     try:
-        ru = getattr(g, op)({"X": ua}, "X", other_component={"Y": va})
-        rv = getattr(g, op)({"Y": va}, "Y", other_component={"X": ua})
+        ru = getattr(g, op)({"X": ua}, "X", other_component={"Y": va_p})
+        rv = getattr(g, op)({"Y": va}, "Y", other_component={"X": ua_p})
     except Exception as e:
         rec.violation("vector-op", "raise:" + exc_sig(e), case, "array", f"{type(e).__name__}: {e}"[:200])
         return
@@ -117,11 +123,29 @@ def run_case(rec, Kx, Ky, N, per, orient, op, li, seed, pre=None):
     if list(ru.dims) != edims or list(rv.dims) != edims:
         rec.violation("vector-op", "dims", case, edims, [list(ru.dims), list(rv.dims)])
         return
+    results = [(ru, rv)]
+    if "t" not in layout:
+        # the same array objects, overwritten in place with another field, on the same Grid: the
+        # answer must follow the current values
+        try:
+            ua.values[...] = layout_da(fields[1][2], "X", layout, fields[1][2]).values
+            va.values[...] = layout_da(fields[1][3], "Y", layout, fields[1][3]).values
+            ua_p.values[...] = layout_da(fields[1][2], "X", playout, fields[1][2]).values
+            va_p.values[...] = layout_da(fields[1][3], "Y", playout, fields[1][3]).values
+            results.append((getattr(g, op)({"X": ua}, "X", other_component={"Y": va_p}), getattr(g, op)({"Y": va}, "Y", other_component={"X": ua_p})))
+            rec.calls += 2
+        except Exception as e:
+            rec.violation("vector-op", "raise-on-second-call:" + exc_sig(e), case, "array", f"{type(e).__name__}: {e}"[:200])
+            return
     fn = (lambda a, b: b - a) if op == "diff" else (lambda a, b: 0.5 * (a + b))
-    for ti in ((0, 1) if "t" in layout else (0,)):
+    for ti in (0, 1):
         U, V, u, v = fields[ti]
-        du = (ru.isel(t=ti) if "t" in layout else ru).transpose("face", "y", "x").values
-        dv = (rv.isel(t=ti) if "t" in layout else rv).transpose("face", "y", "x").values
+        if "t" in layout:
+            du = ru.isel(t=ti).transpose("face", "y", "x").values
+            dv = rv.isel(t=ti).transpose("face", "y", "x").values
+        else:
+            du = results[ti][0].transpose("face", "y", "x").values
+            dv = results[ti][1].transpose("face", "y", "x").values
         eu = np.empty_like(du)
         ev = np.empty_like(dv)
         for f in range(nf):
@@ -132,10 +156,10 @@ def run_case(rec, Kx, Ky, N, per, orient, op, li, seed, pre=None):
                     d = v[f, jp + 1, ip] if jp + 1 < N else D.edge_val(U, V, f, ip, jp + 1, "Y")
                     ev[f, jp, ip] = fn(v[f, jp, ip], 0.0 if d is None else d)
         if not np.array_equal(du, eu):
-            rec.violation("vector-op", f"{op}-X-component" + ("-swapped" if swapped else ""), case, eu, du)
+            rec.violation("vector-op", f"{op}-X-component" + ("-swapped" if swapped else "") + ("-stale-after-in-place-update" if ti == 1 and "t" not in layout else ""), case, eu, du)
             return
         if not np.array_equal(dv, ev):
-            rec.violation("vector-op", f"{op}-Y-component" + ("-swapped" if swapped else ""), case, ev, dv)
+            rec.violation("vector-op", f"{op}-Y-component" + ("-swapped" if swapped else "") + ("-stale-after-in-place-update" if ti == 1 and "t" not in layout else ""), case, ev, dv)
             return
         if op == "diff" and all(per):
             gdiv = (np.roll(U, -1, axis=1) - U) + (np.roll(V, -1, axis=0) - V)
